@@ -1,5 +1,5 @@
 /- C04 driver: condition S-expressions + environment -> spec verdict per rule.
-   Line:  <id> [cext=<t>:<name>:<val>]* buf=<hex> [blocks=n1,n2,..] rule=<sexpr>*   (other tokens ignored)
+   Line:  <id> [cext=<t>:<name>:<val>]* [mext=<t>:m_<alias>:<val>]* buf=<hex> [blocks=n1,n2,..] rule=<sexpr>*   (other tokens ignored)
    rule sexpr: (rule;<name>;(strs;(s;off:len;..);..);<cond>)          separator `;`, no spaces
    Output: <id> rules=default:<name>=<0|1>,... model=default:<name>=<0|1|?>,...
    `rules` = the specification (Spec.Cond.eval); `model` = the compiled code run on the VM model
@@ -196,7 +196,7 @@ structure Case where
 
 def parseCase (toks : List String) : Case :=
   toks.foldl (fun c t =>
-    if t.startsWith "cext=" then
+    if t.startsWith "cext=" || t.startsWith "mext=" then
       match parseExt (t.drop 5).toString with
       | some e => { c with ext := c.ext ++ [e] }
       | none => { c with bad := true }
